@@ -1,6 +1,6 @@
 /-
-C03 — model of `XmppSocket::processData` (src/base/Stream.cpp:228-331) and of the byte → text step in
-front of it (`readyRead` lambda, Stream.cpp:178-180).
+C03 — model of `XmppSocket::processData` (src/base/Stream.cpp) and of the byte → text step in front of it
+(`readyRead` lambda → `decodeIncoming`), as of repo commits 49994ec (stateful decoder) and 381fe43 (header regex).
 
 Text is `List Char` (code points; `QString` is UTF-16 but every operation used here — append, `trimmed`,
 the two regular expressions in UTF mode, `QDomDocument::setContent` — is code-point transparent).
@@ -57,42 +57,50 @@ def closeTag : List Char := "</stream:stream>".toList
 def openLit : List Char := "<stream:stream".toList
 def declLit : List Char := "<?xml".toList
 
-/-- length of the match of `\s*<stream:stream[^>]*>` anchored at the start of `l` (greedy `\s*` cannot give
-anything back: the next pattern character `<` is not a space; `[^>]*>` stops at the first `>`) -/
+/-- the attribute part `(?:[^>'"]|'[^']*'|"[^"]*")*>` of the open-tag pattern: plain characters, quoted strings
+(which may contain `>`), then the closing `>`.  Deterministic: a quote must be closed by the same quote, and no
+alternative can consume a `>` outside quotes.  `q` = the quote we are inside of, `n` = characters consumed so far;
+result = total number of characters including the final `>`. -/
+def scanOpenRest : Option Char → List Char → Nat → Option Nat
+  | _, [], _ => none
+  | none, c :: r, n =>
+    if c = '>' then some (n + 1)
+    else if c = '\'' || c = '"' then scanOpenRest (some c) r (n + 1)
+    else scanOpenRest none r (n + 1)
+  | some q, c :: r, n =>
+    if c = q then scanOpenRest none r (n + 1) else scanOpenRest (some q) r (n + 1)
+
+/-- length of the match of `\s*<stream:stream(?:[^>'"]|'[^']*'|"[^"]*")*>` anchored at the start of `l` (greedy `\s*`
+cannot give anything back: the next pattern character `<` is not a space) -/
 def matchOpenTag (l : List Char) : Option Nat :=
   let ws := l.takeWhile reSpace
   let r := l.dropWhile reSpace
   if openLit.isPrefixOf r then
-    let r2 := r.drop openLit.length
-    let attrs := r2.takeWhile (fun c => c != '>')
-    if attrs.length < r2.length then some (ws.length + openLit.length + attrs.length + 1) else none
+    match scanOpenRest none (r.drop openLit.length) 0 with
+    | some k => some (ws.length + openLit.length + k)
+    | none => none
   else none
 
-/-- the greedy `.*\?>` of the XML-declaration group followed by the rest of the pattern: among the `?>` on the
-first line (`.` does not match LF) the LAST one after which `\s*<stream:stream[^>]*>` matches wins (that is what
-backtracking from the longest `.*` finds first).  `off` = number of characters before `l`, `best` = best so far. -/
-def scanDecl : List Char → Nat → Option Nat → Option Nat
-  | [], _, best => best
-  | c :: r, off, best =>
-    if c = '\n' then best
-    else
-      let best' :=
-        if c = '?' then
-          match r with
-          | '>' :: r2 =>
-            match matchOpenTag r2 with
-            | some n => some (off + 2 + n)
-            | none => best
-          | _ => best
-        else best
-      scanDecl r (off + 1) best'
+/-- the XML-declaration group `<\?xml[^>]*\?>` (text after `<?xml` in `l`): `[^>]*` runs up to the first `>`, which must
+be preceded by `?` (the greedy run gives that one character back); line breaks are allowed.  Result = length of the
+group's match. -/
+def matchDecl (l : List Char) : Option Nat :=
+  let pre := l.takeWhile (fun c => c != '>')
+  if pre.length < l.length && pre.getLast? == some '?' then some (declLit.length + pre.length + 1) else none
 
-/-- `streamStartRegex = ^(<\?xml.*\?>)?\s*<stream:stream[^>]*>` : the matched text (`captured()`), if any.
-If the buffer starts with `<?xml` the optional group must match (the alternative, `\s*<stream:stream` at
-offset 0, cannot). -/
+/-- `streamStartRegex = ^(<\?xml[^>]*\?>)?\s*<stream:stream(?:[^>'"]|'[^']*'|"[^"]*")*>` (repo commit 381fe43):
+the matched text (`captured()`), if any.  If the buffer starts with `<?xml` the optional group must match (the
+alternative, `\s*<stream:stream` at offset 0, cannot). -/
 def matchOpen (buf : List Char) : Option (List Char) :=
-  let n? := if declLit.isPrefixOf buf then scanDecl (buf.drop declLit.length) declLit.length none
-            else matchOpenTag buf
+  let n? :=
+    if declLit.isPrefixOf buf then
+      match matchDecl (buf.drop declLit.length) with
+      | some d =>
+        match matchOpenTag (buf.drop d) with
+        | some n => some (d + n)
+        | none => none
+      | none => none
+    else matchOpenTag buf
   match n? with
   | some n => some (buf.take n)
   | none => none
@@ -157,10 +165,12 @@ def events (evs : List (Ev E)) : List (Ev E) := evs.filter (fun e => !e.isKeepAl
 
 /-! ### byte level -/
 
-/-- socket-side state: the text-level state plus the UTF-8 decoder state (unused by today's code) -/
+/-- socket-side state: the text-level state plus the UTF-8 decoder (`m_decoder`): held-back bytes and whether the
+first character of the stream has been seen -/
 structure BSt where
   st : St := {}
   dec : Utf8.DecSt := {}
+  hdrDone : Bool := false
   deriving DecidableEq, Repr
 
 def binit : BSt := {}
@@ -168,21 +178,40 @@ def binit : BSt := {}
 /-- code points of a decoder output as characters (the decoders only emit scalar values) -/
 def toChars (cps : List Nat) : List Char := cps.map Char.ofNat
 
-/-- TODAY'S CODE: `processData(QString::fromUtf8(m_socket->readAll()))` — every read decoded on its own -/
+/-- BEFORE repo commit 49994ec: `processData(QString::fromUtf8(m_socket->readAll()))` — every read decoded on its
+own.  Kept for reference (`utf8_perchunk_…` theorems, driver argument `perchunk`). -/
 def feedBytesPerChunk (P : Parser E) (s : BSt) (chunk : Bytes) : BSt × List (Ev E) :=
   let r := feedText P s.st (toChars (Utf8.qtFromUtf8 chunk))
   ({ s with st := r.1 }, r.2)
 
-/-- WITH THE FIX (fixes/C03-utf8-stateful-decode.diff): a decoder object that lives as long as the stream
-keeps the trailing incomplete sequence for the next read -/
+/-- a byte order mark is not content: the decoder drops U+FEFF if (and only if) it is the very first character of
+the stream.  `done` = a character has already been decoded. -/
+def bomStep (done : Bool) (out : List Nat) : Bool × List Nat :=
+  if done then (true, out)
+  else
+    match out with
+    | [] => (false, [])
+    | c :: r => (true, if c = 0xFEFF then r else c :: r)
+
+/-- the whole-stream view of `bomStep` -/
+def dropBom1 : List Nat → List Nat
+  | [] => []
+  | c :: r => if c = 0xFEFF then r else c :: r
+
+/-- THE CODE (since 49994ec): `processData(decodeIncoming(m_socket->readAll()))` with a decoder object that lives as
+long as the stream: an incomplete trailing sequence is kept for the next read, a BOM is dropped only at the very
+start of the stream.  `processData` is called even when the read produced no character.
+Modelled with the ideal decoder `Utf8.Dec`; Qt 5's `QTextDecoder` agrees with it on well-formed UTF-8 and differs on
+MALFORMED input (it is not chunk independent there, see `Qx/Base/Utf8.lean`) — outside the property, which is about
+valid streams. -/
 def feedBytesStateful (P : Parser E) (s : BSt) (chunk : Bytes) : BSt × List (Ev E) :=
   let d := Utf8.Dec.feed s.dec chunk
-  let r := feedText P s.st (toChars d.2)
-  ({ st := r.1, dec := d.1 }, r.2)
+  let b := bomStep s.hdrDone d.2
+  let r := feedText P s.st (toChars b.2)
+  ({ st := r.1, dec := d.1, hdrDone := b.1 }, r.2)
 
-/-- The byte-level entry point of the code as it is.  ONE-LINE SWITCH: once the fix is applied replace
-`feedBytesPerChunk` by `feedBytesStateful` here; the driver and `Props/C03.lean` refer to `feedBytesCode`. -/
-def feedBytesCode (P : Parser E) : BSt → Bytes → BSt × List (Ev E) := feedBytesPerChunk P
+/-- The byte-level entry point of the code as it is (one-line switch; was `feedBytesPerChunk P` before 49994ec). -/
+def feedBytesCode (P : Parser E) : BSt → Bytes → BSt × List (Ev E) := feedBytesStateful P
 
 def runBytes (feed : BSt → Bytes → BSt × List (Ev E)) (chunks : List Bytes) : List (Ev E) :=
   (runWith feed binit chunks).2
